@@ -34,31 +34,38 @@ type variant struct {
 	IP       string
 	Deleting bool
 	Meta     int
+	// Sec: a second entry of status.podIPs (a dual-stack pod). The provider's index is by status.podIP alone: nobody is
+	// found under the secondary address, and the lookup of it says so however the pod changes afterwards
+	Sec string
 }
 
 var variants []variant
 
 func init() {
 	for m := 0; m < 2; m++ {
-		variants = append(variants, variant{core_v1.PodPending, false, "", false, m})
+		variants = append(variants, variant{core_v1.PodPending, false, "", false, m, ""})
 		for _, ip := range []string{"X", "Y"} {
-			variants = append(variants, variant{core_v1.PodRunning, false, ip, false, m})
-			variants = append(variants, variant{core_v1.PodSucceeded, false, ip, false, m})
+			variants = append(variants, variant{core_v1.PodRunning, false, ip, false, m, ""})
+			variants = append(variants, variant{core_v1.PodSucceeded, false, ip, false, m, ""})
 		}
-		variants = append(variants, variant{core_v1.PodRunning, true, "X", false, m})
+		variants = append(variants, variant{core_v1.PodRunning, true, "X", false, m, ""})
 	}
-	variants = append(variants, variant{core_v1.PodFailed, false, "X", false, 0}, variant{core_v1.PodRunning, false, "X", true, 0}, variant{core_v1.PodRunning, false, hostIP, false, 0}, variant{core_v1.PodPending, false, "Y", false, 1})
+	variants = append(variants, variant{core_v1.PodFailed, false, "X", false, 0, ""}, variant{core_v1.PodRunning, false, "X", true, 0, ""}, variant{core_v1.PodRunning, false, hostIP, false, 0, ""}, variant{core_v1.PodPending, false, "Y", false, 1, ""},
+		variant{core_v1.PodRunning, false, "X", false, 0, "Y"})
 }
 
 var metas = []struct{ labels, ann map[string]string }{
 	// (a label and an annotation that give the same tag name; two annotation keys that one alternative regex maps to the same name)
-	{map[string]string{"app": "web", "team/x": "a"}, map[string]string{"gostatsd.atlassian.com/tag1": "v1", "other": "o", "gostatsd.atlassian.com/app": "frontend", "gostatsd.atlassian.com/er": "e2"}},
+	{map[string]string{"app": "web", "team/x": "a"}, map[string]string{"gostatsd.atlassian.com/tag1": "v1", "other": "o", "gostatsd.atlassian.com/app": "frontend", "gostatsd.atlassian.com/er": "e2", "app": "ann-app"}}, // (the key app is a label and an annotation: each is read with its own regex)
 	{map[string]string{"app": "db", "team/canary": ""}, map[string]string{"gostatsd.atlassian.com/tag1": "v2", "gostatsd.atlassian.com/tag2": "w", "gostatsd.atlassian.com/marker": ""}}, // (marker-style keys: the value is empty)
 }
 
 func mkPod(name string, v variant) *core_v1.Pod {
 	p := &core_v1.Pod{ObjectMeta: meta_v1.ObjectMeta{Namespace: "ns", Name: name, Labels: metas[v.Meta].labels, Annotations: metas[v.Meta].ann},
 		Spec: core_v1.PodSpec{HostNetwork: v.HostNet}, Status: core_v1.PodStatus{Phase: v.Phase, PodIP: v.IP, HostIP: hostIP}}
+	if v.Sec != "" {
+		p.Status.PodIPs = []core_v1.PodIP{{IP: v.IP}, {IP: v.Sec}}
+	}
 	if v.Deleting {
 		t := meta_v1.NewTime(time.Unix(1, 0))
 		p.DeletionTimestamp = &t
@@ -80,6 +87,8 @@ var rcfgs = []rcfg{
 	{"", ""},
 	// regexes that are not anchored at the start: the match begins in the middle of the key
 	{"atlassian\\.com/(?P<tag>.+)$", "eam/(?P<tag>.*)$"},
+	// both regexes match the key app (a label and an annotation of meta set 0) and name the tag differently
+	{"^(?:gostatsd\\.atlassian\\.com/(?P<tag>.+)|(?P<tag>app))$", "^a(?P<tag>pp)$"},
 	// one alternative per prefix, each with its own group named tag
 	{"^(?:gostatsd\\.atlassian\\.com/(?P<tag>.+)|oth(?P<tag>.+))$", "^(?:team/(?P<tag>.+)|a(?P<tag>p+))$"},
 }
